@@ -30,7 +30,7 @@ REQUIRED = {"xml.well_formed": {"quick": 600, "thorough": 30000}, "testcases.mat
             "counters.match_entries": {"quick": 600, "thorough": 30000}, "problem.entry_names_step_or_hook": {"quick": 300, "thorough": 15000},
             "reporter.never_raises": {"quick": 600, "thorough": 30000}}
 REQUIRED_SEEN = {"testcase_status": ["passed", "failed", "error", "hook_error", "skipped", "untested"],
-                 "hostile_class_in_report": ["xml_meta", "cdata_end", "c0", "c1", "ansi", "astral", "non_ascii"]}
+                 "hostile_class_in_report": ["xml_meta", "cdata_end", "c0", "c1", "ansi", "astral", "non_ascii", "format_meta"]}
 NSHARDS = {"quick": 16, "thorough": 16}
 
 
@@ -134,6 +134,8 @@ def classes_in(text):
         out.add("astral")
     if any(0xa0 <= ord(c) <= 0xffff for c in text):
         out.add("non_ascii")
+    if "%" in text or "{" in text:
+        out.add("format_meta")
     return out
 
 
